@@ -123,6 +123,11 @@ class Folder:
                 return left * right
             if isinstance(n.op, ast.Mod):
                 return left % right
+            if isinstance(n.op, (ast.LShift, ast.RShift, ast.BitXor, ast.FloorDiv, ast.Pow)) and isinstance(left, int) and isinstance(right, int) \
+                    and not isinstance(left, bool) and 0 <= right < 256:
+                return {ast.LShift: lambda: left << right, ast.RShift: lambda: left >> right, ast.BitXor: lambda: left ^ right,
+                        ast.FloorDiv: lambda: left // right if right else (_ for _ in ()).throw(Unfoldable('division by zero')),
+                        ast.Pow: lambda: left ** right}[type(n.op)]()
             raise Unfoldable(f'operator {type(n.op).__name__}')
         if isinstance(n, ast.UnaryOp):
             v = self.ev(mn, n.operand, local)
